@@ -293,6 +293,20 @@ def mk_formula(case):
     """The input CNF of a case (public constructors only)."""
     from cnfgen.formula.cnf import CNF
     nv = case['nv']
+    if case.get('named') == 'dup':
+        # distinct variables that carry the same label (two blocks with the
+        # default label, new_variable('x') twice): labels are names, not keys
+        F = CNF()
+        left = nv
+        while left >= 2 and F.number_of_variables() < 4:
+            F.new_block(2)
+            left -= 2
+        while left >= 1:
+            F.new_variable('x')
+            left -= 1
+        for cl in case['cls']:
+            F.add_clause(list(cl))
+        return F
     if case.get('named') == 'mixed':
         # anonymous variables (known only through a raised count) before,
         # between and after named groups; layout bit 0: a gap between the
@@ -649,6 +663,13 @@ def plan(tier, seed):
                 if (2 * k * nv if T == 'lift' else (k or 3) * nv) <= 16:
                     jobs.append(('X', {'T': T, 'k': k, 'c': c, 'nv': nv, 'named': 'mixed',
                                        'layout': layout, 'cls': [list(x) for x in cls]}))
+    # ---- distinct variables with equal labels ---------------------------------
+    for nv, cls in [(2, [(1, -2), (2,)]), (3, [(1, 2), (-1, -3)]), (4, [(1, -3), (2, -4), (-1, 4)]),
+                    (5, [(1, -3), (-2, 5), (4,)])]:
+        for (T, k, c) in subst_specs(nv, 2, kmax=2):
+            if (2 * k * nv if T == 'lift' else (k or 3) * nv) <= 16:
+                jobs.append(('X', {'T': T, 'k': k, 'c': c, 'nv': nv, 'named': 'dup',
+                                   'cls': [list(x) for x in cls]}))
     # ---- arguments outside the domain --------------------------------------
     base = {'nv': 2, 'cls': [[1, -2], [2]]}
     for k in (0, -1, -2):
